@@ -4,4 +4,5 @@ N2 == <<"a", "b">>
 N3 == <<"a", "b", "c">>
 Protected == {"ite", "var", "fail"}
 Unprotected == {"two", "foa"}
+FailOnly == {"fail"}
 ====
